@@ -37,6 +37,9 @@ def programs(tier):
         quick = [p for p in out if modelgen.read_meta(p[1]).get("quick")]
         rest = [p for p in out if not modelgen.read_meta(p[1]).get("quick")]
         out = quick + rest[::3]
+    # corpus S (systematic rule-shape sweep): the theories that must be accepted; every tenth in the quick tier
+    sweep = [p for p in modelgen.load_corpus("s") if not modelgen.read_meta(p[1]).get("may_be_rejected")]
+    out += sweep if tier == "thorough" else sweep[::10]
     return out
 
 
